@@ -8,14 +8,18 @@ case "$SUB" in *root*|"") SUB=.;; esac
 W=$(mktemp -d /tmp/confirm.XXXXXX); trap 'rm -rf "$W"' EXIT
 rsync -a --exclude .git /repo/ "$W/r/"
 export GOFLAGS=-mod=mod GOPROXY=off GOSUMDB=off GOTOOLCHAIN=local
+# data-race demonstrations need the race detector
+RACE=""; grep -q '"property": *"C20"' "$D/meta.json" 2>/dev/null && RACE="-race"
 cd "$W/r" && git init -q . >/dev/null 2>&1
 [ -d "$SUB" ] || SUB=.
 cp "$D/demo_test.go" "$W/r/$SUB/zz_seed_demo_test.go"
 PKG=./$SUB
-if go test -vet=off -count=1 -run . "$PKG" >"$W/base.log" 2>&1; then echo "demo without patch: PASS"; else echo "demo without patch: FAIL (unexpected)"; tail -5 "$W/base.log"; fi
+# run only the demonstration's own tests
+RUN="^($(grep -oE "^func (Test[A-Za-z0-9_]+)" "$D/demo_test.go" | sed "s/^func //" | paste -sd"|"))\$"
+if go test $RACE -vet=off -count=1 -run "$RUN" "$PKG" >"$W/base.log" 2>&1; then echo "demo without patch: PASS"; else echo "demo without patch: FAIL (unexpected)"; tail -5 "$W/base.log"; fi
 rm "$W/r/$SUB/zz_seed_demo_test.go"
 git apply --whitespace=nowarn "$D/patch.diff" 2>/dev/null || patch -p1 -F3 -s --no-backup-if-mismatch < "$D/patch.diff" || { echo "patch does not apply"; exit 3; }
 go build ./... || { echo "patched tree does not compile"; exit 4; }
 if go test -vet=off -count=1 ./... >"$W/suite.log" 2>&1; then echo "existing suite with patch: PASS"; else echo "existing suite with patch: FAIL"; grep -E "^(FAIL|---)" "$W/suite.log" | head; fi
 cp "$D/demo_test.go" "$W/r/$SUB/zz_seed_demo_test.go"
-if go test -vet=off -count=1 -run . "$PKG" >"$W/demo.log" 2>&1; then echo "demo with patch: PASS (unexpected)"; else echo "demo with patch: FAIL (as intended)"; fi
+if go test $RACE -vet=off -count=1 -run "$RUN" "$PKG" >"$W/demo.log" 2>&1; then echo "demo with patch: PASS (unexpected)"; else echo "demo with patch: FAIL (as intended)"; fi
